@@ -12,6 +12,7 @@ From V Require Import Base.Res Sched.LedgerModel Sched.StmtModel Sched.GangModel
                       Sched.LedgerInvP Sched.LedgerCodec Sched.CycleCodec
                       Sched.QueueLemmasBase Sched.QueueLemmasReach Sched.QueueLemmas Sched.QueueLemmasEx
                       C03.CapacityModel C03.CapacityLemmas C03.ReclaimLaw C03.AliasModel.
+From V Require C03.EnqueueLaw.
 Import ListNotations.
 Open Scope Z_scope.
 
@@ -311,3 +312,20 @@ Example C03_ex_accepted :
   cap_enqueueable true true ex_qs 4%positive (Some (cpu_res 2)) = Reject /\
   cap_allocatable true true ex_qs (fun _ => empty_res) 3%positive (cpu_res 1) = false.
 Proof. exact ex_accepted. Qed.
+
+(* ---- what the enqueue law (119) counts, recomputed from the PodGroup objects and the pods ---- *)
+
+(* an admitted (Inqueue) PodGroup counts for exactly its minResources in every dimension they list,
+   whether or not its pods exist yet *)
+Theorem C03_counted_inqueue_is_min : forall (j : EnqueueLaw.ejob) (d : nat) (m : Z),
+  EnqueueLaw.min_at j d = Some m -> 0 <= nth d (EnqueueLaw.ej_alloc j) 0 -> EnqueueLaw.counted 2 j d = m.
+Proof. exact EnqueueLaw.counted_inqueue_is_min. Qed.
+Print Assumptions C03_counted_inqueue_is_min.
+
+(* a job without minResources, or a dimension its minResources do not list, counts for nothing in
+   the enqueue vote: all of that allocation is "elastic" (see the notes: a literal reading of the
+   property text would count it) *)
+Theorem C03_counted_unlisted : forall (phase : Z) (j : EnqueueLaw.ejob) (d : nat),
+  EnqueueLaw.min_at j d = None -> 0 <= nth d (EnqueueLaw.ej_alloc j) 0 -> EnqueueLaw.counted phase j d = 0.
+Proof. exact EnqueueLaw.counted_unlisted. Qed.
+Print Assumptions C03_counted_unlisted.
